@@ -2,8 +2,10 @@
 """print the prompt for a mutant-seeding sub-agent: property text only, nothing from /verif's machinery"""
 import json, sys
 pid = sys.argv[1]
+round2 = len(sys.argv) > 2 and sys.argv[2] == "2"
+wd = pid + ("r2" if round2 else "")
 p = next(json.loads(l) for l in open('/verif/properties.jsonl') if json.loads(l)['id'] == pid)
-print(f"""You are helping to evaluate a verification effort by playing the adversary. You work ONLY inside the scratch git worktree /tmp/seed/{pid} (a checkout of the Python library `bycycle`, which segments neural time series into cycles, computes per-cycle features and detects oscillatory bursts). Do not read or write anything under /verif or /repo. There is no network. Python with all dependencies is /venv/bin/python; to make sure your worktree's code is what gets imported, always run things as `cd /tmp/seed/{pid} && PYTHONPATH=/tmp/seed/{pid} /venv/bin/python ...`.
+print(f"""You are helping to evaluate a verification effort by playing the adversary. You work ONLY inside the scratch git worktree /tmp/seed/{wd} (a checkout of the Python library `bycycle`, which segments neural time series into cycles, computes per-cycle features and detects oscillatory bursts). Do not read or write anything under /verif or /repo. There is no network. Python with all dependencies is /venv/bin/python; to make sure your worktree's code is what gets imported, always run things as `cd /tmp/seed/{wd} && PYTHONPATH=/tmp/seed/{wd} /venv/bin/python ...`.
 
 The following semantic property of the library is supposed to hold:
 
@@ -13,14 +15,14 @@ The following semantic property of the library is supposed to hold:
   code it is anchored in: {', '.join(p['anchors']['files'])}
   mechanisms: {json.dumps(p['anchors']['mechanism'])}
 
-Your task: produce TWO independent, realistic code changes to the library (each on its own, each in its own patch) that BREAK this property while (a) the package still imports and (b) the existing test suite's currently-passing tests still pass. Think of plausible developer mistakes or "optimisations": an off-by-one in a slice, a comparison operator, a swapped pair, a missing copy, a changed default, a reordered branch, an index expression, two sites that each look fine alone. IMPORTANT: prefer changes that need something SPECIFIC to manifest - an unusual input (ties, plateaus, NaNs, a value exactly on a threshold, a particular array shape, an empty or boundary case), a multi-step sequence of calls, a particular option combination - rather than changes that break every ordinary call at once. The two changes should be of different kinds / at different sites.
+Your task: produce {'THREE' if round2 else 'TWO'} independent, realistic code changes to the library (each on its own, each in its own patch) that BREAK this property while (a) the package still imports and (b) the existing test suite's currently-passing tests still pass. Think of plausible developer mistakes or "optimisations": an off-by-one in a slice, a comparison operator, a swapped pair, a missing copy, a changed default, a reordered branch, an index expression, two sites that each look fine alone. IMPORTANT: prefer changes that need something SPECIFIC to manifest - an unusual input (ties, plateaus, NaNs, a value exactly on a threshold, a particular array shape, an empty or boundary case), a multi-step sequence of calls, a particular option combination - rather than changes that break every ordinary call at once. The changes should be of different kinds / at different sites.{' At least one of them must need TWO cooperating edits at different sites (each harmless alone) or a multi-step sequence of API calls / a particular history to manifest, and at least one should live in glue code (argument routing, option handling, defaults, copies, index bookkeeping) rather than in the central formula. Do not use git stash (worktrees share the stash).' if round2 else ''}
 
-For each change k in {{1, 2}} create the directory /tmp/seed_out/{pid}_k/ containing:
+For each change k in {{1, 2{', 3' if round2 else ''}}} create the directory /tmp/seed_out/{wd}_k/ containing:
   - patch.diff : output of `git diff` in the worktree for that change alone (apply-able with `git apply` on a clean checkout);
   - demo.py    : a small self-contained script that exits 0 on the ORIGINAL code and exits non-zero (assert / exception) on the CHANGED code, demonstrating the violation of the property through the public API; it must be deterministic (fixed seeds) and run in under a minute with `PYTHONPATH=<checkout> /venv/bin/python demo.py`;
   - meta.json  : {{"property": "{pid}", "summary": "<one sentence what was changed>", "needs": "<what specific input/sequence/config is needed for it to manifest>", "files": ["<changed files>"]}}.
-After producing change 1, run `git -C /tmp/seed/{pid} checkout -- .` to return to the clean state before making change 2, and return to the clean state at the end.
+After producing each change, run `git -C /tmp/seed/{wd} checkout -- .` to return to the clean state before making the next one, and return to the clean state at the end.
 
-You must CONFIRM for each change: (i) demo.py passes on the clean checkout and fails with the patch applied; (ii) the test suite still passes what it passed before: run `cd /tmp/seed/{pid} && PYTHONPATH=/tmp/seed/{pid} /venv/bin/python -m pytest -q -p no:cacheprovider -x -q bycycle/tests 2>&1 | tail -5` on the clean checkout first to see the baseline (some tests may fail on the clean checkout already - those do not matter; what matters is that no test that passes on the clean checkout fails with your patch; compare the sets of failing test ids, e.g. with `-rf`, without `-x`). The suite takes about 20-40 s.
+You must CONFIRM for each change: (i) demo.py passes on the clean checkout and fails with the patch applied; (ii) the test suite still passes what it passed before: run `cd /tmp/seed/{wd} && PYTHONPATH=/tmp/seed/{wd} /venv/bin/python -m pytest -q -p no:cacheprovider -x -q bycycle/tests 2>&1 | tail -5` on the clean checkout first to see the baseline (some tests may fail on the clean checkout already - those do not matter; what matters is that no test that passes on the clean checkout fails with your patch; compare the sets of failing test ids, e.g. with `-rf`, without `-x`). The suite takes about 20-40 s.
 
 Report in your final message, for each change: the summary, what it needs to manifest, and the confirmation results.""")
